@@ -37,6 +37,17 @@ def main():
     mod = importlib.import_module("mc.checks.%s" % pid.lower())
     if args.replay:
         sys.exit(mod.replay(args.replay))
+    # watchdog: a check that runs away (e.g. a changed tree that makes an execution space explode) is stopped and
+    # reported as a harness time-out rather than hanging
+    import signal
+
+    limit = int(os.environ.get("VERIF_TIME_LIMIT", "2400" if args.tier == "quick" else "28800"))
+
+    def on_alarm(signum, frame):
+        raise TimeoutError("check %s exceeded its time limit of %d s" % (pid, limit))
+
+    signal.signal(signal.SIGALRM, on_alarm)
+    signal.alarm(limit)
     try:
         rc = mod.main(args.tier, seed)
     except SystemExit:
